@@ -58,7 +58,8 @@ function getPathAndLine (sourceMap, filename, line, column) {
       const filePath = getFilePathFromName(filename)
       const { originalSource, originalLine, originalColumn } = sourceMap.findEntry(line - 1, column - 1)
       return {
-        path: path.join(filePath, originalSource),
+        // a source named by an absolute path is that path; anything else is relative to the file's folder
+        path: path.isAbsolute(originalSource) ? originalSource : path.join(filePath, originalSource),
         line: originalLine + 1,
         column: originalColumn + 1
       }
